@@ -161,6 +161,7 @@ def callNode : Call Nat → Nat
   | .update p _ => p
   | .paramData p => p
   | .artifact i => i
+  | .updateRejected p => p
 
 def isUpdate : Call Nat → Bool
   | .update _ _ => true
@@ -278,6 +279,7 @@ def predict (arr : Array (Node Nat)) (vals : Array Nat) : Call Nat → Resp Nat
     | .param x _ => .val x
     | .struct _ => .err
   | .artifact i => .val (vals[i]?.getD 0)
+  | .updateRejected _ => .err
 
 structure Ctx where
   N : Nat
